@@ -51,13 +51,20 @@ impl Canon for Actor {
 
 fn recv<P: Packetize + Canon>(t: u8, payload: &[u8]) -> Vec<i64> {
     let len = payload.len();
-    let mut data = payload.to_vec();
+    // the stream has a history: a larger packet (a 65-byte session upgrade) was received on it before, and the bytes
+    // after the payload under test are already there (sentinels) - neither may influence where this packet ends
+    let mut prime = vec![0u8]; prime.extend([b'p'; 64]);
+    let plen = prime.len();
+    let mut data = prime;
+    data.extend(payload);
     data.extend([0xA5u8; 16]); // sentinel bytes after the payload: must never be read
     let res = std::panic::catch_unwind(move || {
         rt().block_on(async move {
             let mut s = Stream::new(std::io::Cursor::new(data));
+            let first = s.recv_packet::<Session>(plen).await;
+            if first.is_err() || s.inner().position() as usize != plen { return (None, -1000); }
             let r = s.recv_packet::<P>(len).await;
-            let pos = s.inner().position() as i64;
+            let pos = s.inner().position() as i64 - plen as i64;
             (r.ok().map(|p| p.canon()), pos)
         })
     });
